@@ -45,3 +45,28 @@ Definition poll (rec : bool) (f : faults) (root : path) (ot : option tree) (st :
       | Some d => PStep (events_of d) (mkE new false)            (* l.93-114 *)
       end
     end.
+
+(* ------------------------------------------------------------ specification side *)
+
+(* position of the loop that emits the class, in source order *)
+Definition krank (k : ekind) : nat :=
+  match k with
+  | FileDeleted => 0 | FileModified => 1 | FileCreated => 2 | FileMoved => 3
+  | DirDeleted => 4 | DirModified => 5 | DirCreated => 6 | DirMoved => 7
+  end.
+Definition ev_le (a b : event) : Prop := krank (ev_kind a) <= krank (ev_kind b).
+
+(* An event is justified by the diff [d] of [r] (previous) and [s] (new): it names an entry of the
+   matching category, its class is the kind of that entry, its path(s) are the entry's. *)
+Definition event_ok (r s : snap) (d : dresult) (e : event) : Prop :=
+  match e with
+  | Ev FileDeleted p None => In p (d_deleted d) /\ isdir_at r p = Some false
+  | Ev DirDeleted p None => In p (d_deleted d) /\ isdir_at r p = Some true
+  | Ev FileModified p None => In p (d_modified d) /\ isdir_at r p = Some false
+  | Ev DirModified p None => In p (d_modified d) /\ isdir_at r p = Some true
+  | Ev FileCreated p None => In p (d_created d) /\ isdir_at s p = Some false
+  | Ev DirCreated p None => In p (d_created d) /\ isdir_at s p = Some true
+  | Ev FileMoved a (Some b) => In (a, b) (d_moved d) /\ isdir_at r a = Some false
+  | Ev DirMoved a (Some b) => In (a, b) (d_moved d) /\ isdir_at r a = Some true
+  | _ => False
+  end.
